@@ -278,7 +278,9 @@ class TaskScheduler(object):
             if _debug_options.DUMP_FLUSH_BATCH:
                 debug.write("@async: no batch to flush")
             return None
-        self._batches.remove(batch)
+        # discard, not remove: a get_priority() hook that makes a synchronous asynq call
+        # ends a computation while the stack is empty, which drops the pending batches
+        self._batches.discard(batch)
         self._flush_batch(batch)
         return batch
 
@@ -310,7 +312,7 @@ class TaskScheduler(object):
                 best_priority = priority
         if batches_to_remove:
             for batch in batches_to_remove:
-                self._batches.remove(batch)
+                self._batches.discard(batch)
         return best_batch
 
     def __str__(self):
